@@ -50,3 +50,21 @@ Print Assumptions C03_case_keeps_exact.
 Theorem C03_identity_run : forall steps l, run_ok c03_identity_ok l steps = true -> ident_sig (run l steps) = ident_sig l.
 Proof. exact C03_identity_run. Qed.
 Print Assumptions C03_identity_run.
+
+(* whatever a rule's fix would do: a rule that is disabled, fixable: false, of warning severity, in a skipped phase or
+   beyond --fix_phase never gets to apply it - any property of the token list that the scheduled rules and the
+   normaliser keep is kept by the whole run *)
+Require Import FullRun Lines.
+Theorem C03_only_scheduled_rules_edit : forall edits_of norm rules fix_phase skip (P : list atok -> Prop) l,
+  P l -> (forall l', P l' -> P (norm l')) ->
+  (forall r l', In r rules -> rdisabled r = false -> rerror r = true -> rfixable r = true ->
+                1 <= rphase r <= fix_phase -> memn (rphase r) skip = false -> P l' -> P (update l' (edits_of r l'))) ->
+  P (full_run edits_of norm rules fix_phase skip l).
+Proof. exact only_scheduled_rules_edit. Qed.
+Print Assumptions C03_only_scheduled_rules_edit.
+
+(* the normalisation after phase 1 creates and deletes whitespace and blank-line tokens only *)
+Theorem C03_normalisers_keep : forall l,
+  filter kept (fix_trailing_whitespace (fix_blank_lines l)) = filter kept l.
+Proof. exact normalisers_keep. Qed.
+Print Assumptions C03_normalisers_keep.
